@@ -2189,6 +2189,10 @@ def props_of(name):
         return ("C03", "C01", "C11")          # which rows are posed is decided by check(side): C11 un-annotated, C01 what the writer produces
     if name.startswith("units.roundtrip") or name.startswith("converted_types.convert["):
         return ("C01",) + c11
+    if name.startswith("convert.value_means_annotation"):
+        # also the decode step of the statistics chain (api.statistics / filter_out_stats call converted_types.convert on min / max):
+        # C04 (exposed statistics decode to the logical values) and C05 (pruning compares decoded bounds) rely on it
+        return ("C03", "C04", "C05")
     if name.startswith("convert."):
         return ("C03",)
     if name.startswith("units.model_agrees_with_native[converted_types.convert") or name.startswith("cencoding.time_shift"):
